@@ -312,6 +312,18 @@ struct StModel {
           }
         }
       }
+      if (p.first.size() == 2) {   // endpoints of an edge are its two vertices
+        auto ep = c.endpoints(sh);
+        auto e1 = vertices_of(ep.first), e2 = vertices_of(ep.second);
+        if (e1.size() != 1 || e2.size() != 1 || std::min(e1[0], e2[0]) != p.first[0] || std::max(e1[0], e2[0]) != p.first[1])
+          failed.push_back("endpoints(edge) are not the two vertices of the edge");
+      }
+      {   // has_children: some simplex extends this one by a larger vertex (the node has a Siblings below it)
+        bool hc = false;
+        for (auto& r : K)
+          if (r.first.size() == p.first.size() + 1 && std::equal(p.first.begin(), p.first.end(), r.first.begin())) { hc = true; break; }
+        if (c.has_children(sh) != hc) failed.push_back("has_children disagrees with the complex");
+      }
       std::vector<std::vector<int>> faces2;
       for (auto b : c.boundary_simplex_range(sh)) faces2.push_back(vertices_of(b));
       if (faces1 != faces2) failed.push_back("boundary_simplex_range and boundary_opposite_vertex_simplex_range disagree");
